@@ -17,7 +17,12 @@ RULE = ('rank-2 npc Arrays with 0-3 charges (mod 1..5): built directly from two 
         'representations (conj and flipped charges), hermitian input for eigh. Every option combination of svd '
         '(full_matrices, compute_uv, cutoff, qtotal_LR incl. non-reduced and inconsistent requests, inner_qconj, '
         'labels), qr/lq (mode, cutoff, pos_diag, qtotal_Q, inner_qconj), eigh/eig/eigvalsh/eigvals (UPLO, sort), expm, '
-        'pinv, polar (left), orthogonal_columns, speigs. Each case runs on the real code under both kernel '
+        'pinv, polar (left), orthogonal_columns, speigs (k below/at/above the sector size, which, sigma, '
+        'return_eigenvectors). Fault injection below svd_robust (scipy gesdd raises LinAlgError -> gesvd fall-back with '
+        'overwrite_a; gesdd returns NaN -> retry in _svd_worker; NaN from both drivers -> ValueError), inputs of rank 3 '
+        'and invalid cutoffs (documented ValueError), and direct calls of svd_robust.svd (drivers gesdd/gesvd/invalid, '
+        'overwrite_a, warn) and of tools.math qr_li/rq_li/speigs/speigsh (ndarray and matvec-only operator, k<d-1 ARPACK '
+        'and dense branch, all `which`)/matvec_to_array/scalar helpers against dense references. Each case runs on the real code under both kernel '
         'configurations with a model-free numpy oracle, and on the Lean assembly model whose per-block routine is '
         'instantiated by provenance codes: legs (with flags), qtotal, _qdata, block shapes, labels are compared '
         'exactly and every dense entry of every factor must equal the entry of the per-block LAPACK result the '
@@ -35,7 +40,8 @@ ASSUMPTIONS = ['entries are small integers: block copies are exact, LAPACK resul
                'bijection C05_locate_sum']
 
 OPS = ['svd', 'svd', 'svd', 'qr', 'qr', 'lq', 'eigh', 'eig', 'eigvalsh', 'eigvals', 'expm', 'pinv', 'polar', 'ortho',
-       'speigs']
+       'speigs', 'svd_robust', 'math']
+DIRECT_OPS = ('svd_robust', 'math')   # numpy in / numpy out helpers: oracle only, no charge model
 
 
 # ------------------------------------------------------------------------------------------------
@@ -164,7 +170,7 @@ def gen_opts(rng, op, mods, qtotal):
             if rng.random() < 0.15:
                 qR = q()
         return dict(full=full, uv=uv, cutoff=cutoff, qL=qL, qR=qR, iq=rng.choice([1, -1]), labels=labs,
-                    aslist=rng.random() < 0.1)
+                    aslist=rng.random() < 0.1, inject=gen_inject(rng))
     if op in ('qr', 'lq'):
         return dict(mode=rng.choice(['reduced', 'reduced', 'complete']), cutoff=rng.choice([None, None, None, 1.0e-8]),
                     pos=rng.random() < 0.5, qQ=rng.choice([None, q(), list(qtotal)]), iq=rng.choice([1, -1]),
@@ -176,18 +182,67 @@ def gen_opts(rng, op, mods, qtotal):
     if op == 'expm':
         return {}
     if op == 'pinv':
-        return dict(cutoff=rng.choice([1.0e-8, 1.0e-8, 1.0e-6, 1.0e-15]))
+        if rng.random() < 0.06:   # documented: cutoff must be > 0
+            return dict(cutoff=rng.choice([0.0, -1.0e-3]), nomodel=True, inject=None)
+        return dict(cutoff=rng.choice([1.0e-8, 1.0e-8, 1.0e-6, 1.0e-15]), inject=gen_inject(rng))
     if op == 'polar':
-        return dict(cutoff=rng.choice([1.0e-16, 1.0e-10]), left=rng.random() < 0.5, labels=labs)
+        if rng.random() < 0.05:   # documented: cutoff must be >= 0
+            return dict(cutoff=-1.0e-3, left=rng.random() < 0.5, labels=labs, nomodel=True, inject=None)
+        return dict(cutoff=rng.choice([1.0e-16, 1.0e-10, 0.0]), left=rng.random() < 0.5, labels=labs,
+                    inject=gen_inject(rng))
     if op == 'ortho':
         return dict(label=rng.choice([None, 'new']))
     if op == 'speigs':
-        return dict(sector=None, k=rng.choice([1, 2, 3]), which=rng.choice(['LM', 'LR', 'SR']))
+        return dict(sector=None, k=rng.choice([1, 2, 3, 3, 4, 6]), which=rng.choice(['LM', 'LR', 'SR', 'SM', 'LI', 'SI']),
+                    ret_eigv=rng.random() < 0.75, sigma=rng.choice([None, None, None, None, 0.3, -1.7]))
     raise KeyError(op)
+
+
+def gen_inject(rng):
+    """fault injected below svd_robust (see c05_worker.Inject)"""
+    return rng.choice([None] * 7 + ['linalg_error', 'nan', 'nan_always'])
+
+
+def gen_direct(rng, op):
+    dtype = rng.choice(['real', 'real', 'complex'])
+    seed = rng.randrange(1 << 30)
+    if op == 'svd_robust':
+        m, n = rng.choice([(1, 1), (2, 3), (3, 2), (4, 4), (5, 2), (1, 4), (3, 3)])
+        o = dict(m=m, n=n, dtype=dtype, kind=rng.choice(['random', 'random', 'rankdef', 'zero']),
+                 full=rng.random() < 0.5, uv=rng.random() < 0.75, overwrite=rng.random() < 0.5,
+                 driver=rng.choice(['gesdd', 'gesdd', 'gesvd', 'gesvd', 'gesdc']), warn=rng.random() < 0.6,
+                 inject=rng.choice([None, None, 'linalg_error', 'linalg_error', 'spy']))
+        return dict(op=op, opts=o, seed=seed)
+    fn = rng.choice(['qr_li', 'rq_li', 'speigs', 'speigs', 'speigs', 'speigsh', 'speigsh', 'speigsh', 'matvec_to_array',
+                     'scalar_helpers'])
+    if fn in ('qr_li', 'rq_li'):
+        m, n = rng.choice([(1, 1), (2, 3), (3, 2), (4, 4), (5, 2), (2, 5), (3, 3)])
+        o = dict(fn=fn, m=m, n=n, dtype=dtype, kind=rng.choice(['random', 'rankdef', 'rankdef', 'zero']),
+                 cutoff=rng.choice([1.0e-15, 1.0e-10, 1.0e-8]))
+    elif fn == 'scalar_helpers':
+        d = rng.choice([1, 3, 5])
+        o = dict(fn=fn, m=d, n=d, dtype='real', kind='random')
+    elif fn == 'matvec_to_array':
+        d = rng.choice([1, 2, 4])
+        o = dict(fn=fn, m=d, n=d, dtype=dtype, kind='random')
+    else:
+        d = rng.choice([1, 2, 3, 4, 5, 6, 7])
+        herm = fn == 'speigsh'
+        which = rng.choice(['LM', 'SM', 'LA', 'SA'] if herm else ['LM', 'SM', 'LR', 'SR', 'LI', 'SI'])
+        o = dict(fn=fn, m=d, n=d, dtype=dtype, kind='hermitian' if herm else rng.choice(['random', 'random', 'rankdef']),
+                 k=rng.choice([1, 2, 3, d - 1 if d > 1 else 1, d, d + 2]), which=which,
+                 ret_eigv=rng.random() < 0.6, linop=rng.random() < 0.4)
+        if rng.random() < 0.05:   # not square: documented ValueError
+            o['n'] = d + 1
+            o['kind'] = 'random'
+    return dict(op=op, opts=o, seed=seed)
+
 
 
 def gen_case(rng, op=None):
     op = op or rng.choice(OPS)
+    if op in DIRECT_OPS:
+        return gen_direct(rng, op)
     mods = npcgen.gen_mods(rng)
     square = op in ('eigh', 'eig', 'eigvalsh', 'eigvals', 'expm', 'speigs')
     qtotal = gen_qtotal(rng, mods)
@@ -201,6 +256,13 @@ def gen_case(rng, op=None):
         l0 = build['legs'][0]
         opts['sector'] = (npcgen.valid(mods, [l0['qconj'] * x for x in rng.choice(l0['charges'])])
                           if rng.random() < 0.9 and build['kind'] == 'direct' else npcgen.gen_charge(rng, mods))
+    if rng.random() < 0.03:   # not a matrix: the documented ValueError
+        legs3 = [npcgen.gen_leg(rng, mods, max_blocks=2, max_size=2, allow_empty=False) for _ in range(2)]
+        legs3.append(derived_leg(rng, mods, legs3, rng.choice([1, -1]), qtotal, max_blocks=2, max_size=2))
+        build = dict(kind='rank3', legs=legs3)
+        opts = dict(opts, nomodel=True)
+        if 'inject' in opts:
+            opts['inject'] = None
     pattern = dict(drop=rng.choice([0, 0, 0.3, 0.6]), zero=rng.choice([0, 0, 0.2]), rankdef=rng.choice([0, 0.3, 0.5]))
     if op == 'ortho' and rng.random() < 0.7:
         pattern['rankdef'] = 0
@@ -490,6 +552,9 @@ def dense_close(a, b, atol):
 
 
 def nontrivial(r):
+    if 'a' not in r['in']:
+        o = r['in']['opts']
+        return r['in']['op'] in DIRECT_OPS and min(o['m'], o['n']) >= 2
     a = r['in']['a']
     return len(a['legs'][0]['mods']) >= 1 and (len(a['qdata']) >= 2 or bool(r['rec']['blocked'] and r['rec']['blocked']['axes']))
 
@@ -501,7 +566,7 @@ def evaluate(ctx, cases, use_model=True, configs=('cy', 'py')):
     ref = runs[ref_cfg]['results']
     lean_in, idx = [], []
     for i, r in enumerate(ref):
-        if r and 'in' in r:
+        if r and 'in' in r and not r.get('nomodel'):
             lean_in.append(dict(op=r['in']['op'], opts=r['in']['opts'], a=r['in']['a'], aux=aux_for(r)))
             idx.append(i)
     models = dict(zip(idx, core.run_driver('C05', lean_in))) if use_model and lean_in else {}
@@ -514,14 +579,28 @@ def evaluate(ctx, cases, use_model=True, configs=('cy', 'py')):
         res.note_case(case, nontrivial(r))
         op, o = case['op'], case['opts']
         res.count('op=' + op)
-        res.count('ncharges=%d' % len(case['mods']))
-        res.count('build=' + case['build']['kind'])
-        res.count('dtype=' + case['dtype'])
-        res.count('piped_axes=%d' % (len(r['rec']['blocked']['axes']) if r['rec']['blocked'] else 0))
-        res.count('stored_blocks=%s' % min(len(r['in']['a']['qdata']), 4))
-        res.count('qtotal_nonzero=%s' % any(case['qtotal']))
-        for k in ('full', 'uv', 'mode', 'pos', 'sort', 'iq', 'left', 'uplo'):
-            if k in o:
+        if op in DIRECT_OPS:
+            res.count('dtype=' + o['dtype'])
+            if op == 'math':
+                res.count('math.fn=' + o['fn'])
+                for k in ('which', 'ret_eigv', 'linop', 'kind'):
+                    if k in o:
+                        res.count(f'math.{o["fn"]}.{k}={o[k]}')
+                if 'k' in o:
+                    res.count('math.%s.k%sd' % (o['fn'], '<' if o['k'] < o['m'] - 1 else '>' if o['k'] > o['m'] else '~'))
+            else:
+                for k in ('full', 'uv', 'overwrite', 'driver', 'warn', 'inject', 'kind'):
+                    res.count(f'svd_robust.{k}={o[k]}')
+        else:
+            res.count('ncharges=%d' % len(case['mods']))
+            res.count('build=' + case['build']['kind'])
+            res.count('dtype=' + case['dtype'])
+            res.count('qtotal_nonzero=%s' % any(case['qtotal']))
+        if 'a' in r['in']:
+            res.count('piped_axes=%d' % (len(r['rec']['blocked']['axes']) if r['rec']['blocked'] else 0))
+            res.count('stored_blocks=%s' % min(len(r['in']['a']['qdata']), 4))
+        for k in ('full', 'uv', 'mode', 'pos', 'sort', 'iq', 'left', 'uplo', 'inject', 'ret_eigv', 'sigma', 'which'):
+            if k in o and op not in DIRECT_OPS:
                 res.count(f'{op}.{k}={o[k]}')
         if 'cutoff' in o:
             res.count(f'{op}.cutoff={o["cutoff"]}')
@@ -536,6 +615,7 @@ def evaluate(ctx, cases, use_model=True, configs=('cy', 'py')):
         # known finding c05.qr.complete-with-cutoff: blocks that do not fit the legs are copied from uninitialised
         # memory by split_legs -- the result is not even deterministic; only the oracle is applied to these calls
         undefined = op in ('qr', 'lq') and o['mode'] == 'complete' and o['cutoff'] is not None
+        arpack = lambda x: str(x.get('out', {}).get('error', '')).startswith('Arpack')
         for cfg in configs[1:]:
             ot = runs[cfg]['results'][i]
             if 'crash' in ot:
@@ -546,6 +626,8 @@ def evaluate(ctx, cases, use_model=True, configs=('cy', 'py')):
                     res.fail('property', sig, f'[{cfg}] {detail}', case)
             if (r['oracle'] or undefined) and ot.get('in') == r['in']:
                 continue   # already reported as a property failure; error classes may differ between the kernels
+            if arpack(ot) or arpack(r):
+                continue   # the sparse solver gave up in one of the runs (random start vector): nothing to compare
             if op == 'speigs':
                 # ARPACK starts from a random vector: eigenvectors differ by a phase from run to run
                 same_out = ('error' in ot.get('out', {})) == ('error' in r['out']) and ot.get('in') == r['in']
@@ -569,9 +651,18 @@ def evaluate(ctx, cases, use_model=True, configs=('cy', 'py')):
     return res
 
 
+ANCHOR_COVERAGE_NOTE = (
+    '2026-09-26, quick-tier case batch (seed 0) run through harness.c05_worker under coverage --branch with '
+    'TENPY_NO_CYTHON=1: anchored functions (np_conserved: svd, _svd_worker, qr, lq, eigh, eig, eigvalsh, eigvals, '
+    '_eig_worker, _eigvals_worker, speigs, expm, pinv, polar, orthogonal_columns; svd_robust.svd; tools/math: qr_li, '
+    'rq_li, speigs, speigsh, matvec_to_array) before: 405/462 lines (87.7%), 161/194 branches (83.0%); after: 462/462 '
+    'lines, 194/194 branches. Whole files after: svd_robust.py 100%/100%, tools/math.py 100%/100% (before 45% / 34%).')
+
+
 def run(ctx):
     res = core.Result()
-    n = 2400 if ctx.quick else 30000
+    res.extra['anchor_coverage_note'] = ANCHOR_COVERAGE_NOTE
+    n = 4000 if ctx.quick else 30000
     cases = load_corpus() + cases_for(ctx, 'main', n)
     if ctx.quick:
         res.merge(evaluate(ctx, cases))
